@@ -343,6 +343,19 @@ def check_guards(ctx, rid, prop):
             continue
         sites = action_sites(F, f, e['action'])
         if not sites:
+            if e.get('required') and e['action'].startswith('call:'):
+                spec = e['action'][5:]
+                ga = None
+                if '<' in spec:
+                    spec, ga = spec[:-1].split('<', 1)
+                cache = {}
+                via = set(t['fn'] for g2 in _family(F, e['fn']) for bi, t in g2.calls() if reaches(F, t, spec, ga, cache)) - set(e.get('via_before', []))
+                if via:
+                    r.ok('absent|%s|%s' % (e['fn'], e['action']), f.file, 'action moved into a helper (still reached) — guard not compared')
+                else:
+                    found += 1
+                    r.bad('missing|%s|%s' % (e['fn'].replace('proto::streams::', ''), e['action']), f.file, '%s no longer performs %s. %s' % (e['fn'].split('::')[-1], e['action'], e['why']))
+                continue
             r.ok('absent|%s|%s' % (e['fn'], e['action']), f.file, 'action not found (restructured?) — not a violation')
             continue
         found += 1
